@@ -164,6 +164,28 @@ def apply_call(M, call, lean_calls, site_index):
         raise ValueError(f)
 
 
+def is_empty_model(case):
+    """True if the calls of the case add no term at all (tenpy cannot build an MPO of the zero operator)"""
+    from tenpy.models.model import CouplingModel
+    lat = build_lattice(case)
+    M = CouplingModel(lat, bool(case.get('explicit', False)))
+    site_index = {id(s): 0 for s in lat.unit_cell}
+    with warnings.catch_warnings():
+        warnings.simplefilter('ignore')
+        for call in case['calls']:
+            apply_call(M, call, [], site_index)
+        ot = M.all_onsite_terms()
+        ot.remove_zeros()
+        ct = M.all_coupling_terms()
+        ct.remove_zeros()
+        n = len(ot.to_TermList().terms) + len(ct.to_TermList().terms)
+        if lat.bc_MPS == 'finite':
+            n += len(M.exp_decaying_terms.to_TermList(cutoff=0.).terms)
+        else:
+            n += len(M.exp_decaying_terms.exp_decaying_terms)
+    return n == 0
+
+
 def build_model(case):
     """returns (model, lean_calls, distinct_sites) ; the model is a CouplingMPOModel subclass instance"""
     from tenpy.models.model import CouplingMPOModel
@@ -268,22 +290,14 @@ def _is_num(v):
 
 def ed_dense(ed):
     """full_H of an ExactDiag as ndarray in the Kronecker basis of the (ungrouped) sites' internal bases"""
-    H = ed.full_H
-    while any(hasattr(l, 'legs') for l in H.legs):  # pipes (grouped sites: pipes of pipes)
+    H = ed.full_H.split_legs()       # one leg per (possibly grouped) site: 'p0', …, 'p0*', …
+    L = H.rank // 2
+    H = H.transpose(['p%d' % i for i in range(L)] + ['p%d*' % i for i in range(L)])
+    while any(hasattr(l, 'legs') for l in H.legs):  # grouped sites: pipes over the original legs
         H = H.split_legs()
-    labels = H.get_leg_labels()
-    kets = [l for l in labels if not l.endswith('*')]
-    order = sorted(kets, key=_label_key)
-    H = H.transpose(order + [l + '*' for l in order])
     arr = H.to_ndarray()
-    d = int(np.prod(arr.shape[:len(order)]))
+    d = int(np.prod(arr.shape[:arr.ndim // 2]))
     return arr.reshape(d, d)
-
-
-def _label_key(l):
-    # 'p3' or for grouped sites 'p0.p1' style labels after splitting: 'p0', 'p1' of pipe '(p0.p1)'
-    import re
-    return [int(x) for x in re.findall(r'\d+', l)]
 
 
 def grouped_dense(M, n):
@@ -353,8 +367,9 @@ def representations(M, case, want=None):
             with warnings.catch_warnings():
                 warnings.simplefilter('ignore')
                 H_bond = M.calc_H_bond()
-        except ValueError as e:
-            if 'nearest' not in str(e).lower() and 'exp_decaying' not in str(e):
+        except (ValueError, AssertionError) as e:
+            # not a nearest-neighbour model (multi-site terms trip `assert len(term) == 2`)
+            if isinstance(e, ValueError) and 'nearest' not in str(e).lower() and 'exp_decaying' not in str(e):
                 reps['calc_H_bond'] = e
         if H_bond is not None and any(h is not None for h in H_bond):
             nn = NearestNeighborModel(M.lat, H_bond)
@@ -380,12 +395,32 @@ def representations(M, case, want=None):
     return reps
 
 
+def mpo_window_dense(H, n_sites):
+    """dense operator of the terms of an (infinite) MPO lying completely inside sites 0 … n_sites-1:
+    contraction of W[0][IdL, :] … W[n-1][:, IdR] (own contraction, no extract_segment); grouped sites are
+    split back into the original ones"""
+    import tenpy.linalg.np_conserved as npc
+    full = H.get_W(0).take_slice(H.get_IdL(0), 'wL').replace_labels(['p', 'p*'], ['p0', 'p0*'])
+    for i in range(1, n_sites):
+        W = H.get_W(i).replace_labels(['p', 'p*'], ['p%d' % i, 'p%d*' % i])
+        full = npc.tensordot(full, W, axes=['wR', 'wL'])
+    full = full.take_slice(H.get_IdR(n_sites - 1), 'wR')
+    if H.explicit_plus_hc:
+        full = full + full.conj().itranspose(full.get_leg_labels())
+    full = full.transpose(['p%d' % i for i in range(n_sites)] + ['p%d*' % i for i in range(n_sites)])
+    while any(hasattr(l, 'legs') for l in full.legs):
+        full = full.split_legs()
+    arr = full.to_ndarray()
+    d = int(np.prod(arr.shape[:arr.ndim // 2]))
+    return arr.reshape(d, d)
+
+
 def kron_perm(perms):
     """permutation of the Kronecker basis induced by per-site permutations:
     index (a_0, a_1, …) ↦ (perm_0[a_0], perm_1[a_1], …)"""
     dims = [len(p) for p in perms]
     idx = np.arange(int(np.prod(dims))).reshape(dims)
-    res = idx[np.ix_(*[np.argsort(p) for p in perms])]
+    res = idx[np.ix_(*[np.asarray(p) for p in perms])]
     return res.reshape(-1)
 
 
@@ -494,7 +529,8 @@ def oracle_terms(case, lat, n_cells=1):
             if okk:
                 terms.append((complex(s), term, ph))
         elif f == 'add_onsite_term':
-            terms.append((complex(s), [(call['op'], call['i'])], ph))
+            for c in range(n_cells if not finite else 1):
+                terms.append((complex(s), [(call['op'], call['i'] + c * lat.N_sites)], ph))
         elif f in ('add_coupling_term', 'add_multi_coupling_term', 'add_exp', 'add_centered'):
             terms.append(('raw', call, ph))
         else:
@@ -502,16 +538,30 @@ def oracle_terms(case, lat, n_cells=1):
     return terms
 
 
-def raw_call_matrix(mb, call, N):
-    """many-body matrix of a low-level call whose meaning is a plain operator string"""
+def raw_call_matrix(mb, call, N, n_cells=None):
+    """many-body matrix of a low-level call whose meaning is a plain operator string
+    (n_cells: infinite MPS, all translates by multiples of N that fit into n_cells unit cells)"""
     f = call['f']
     s = oc.strength_to_np(call['strength'])
     H = mb.zero()
+    Ltot = N * (n_cells or 1)
+
+    def translates(ops):
+        if n_cells is None:
+            return [ops]
+        res = []
+        for sh in range(-n_cells - 4, n_cells + 4):
+            o2 = {k + sh * N: v for k, v in ops.items()}
+            if all(0 <= k < Ltot for k in o2):
+                res.append(o2)
+        return res
+
     if f == 'add_coupling_term':
         ops = {call['i']: call['op_i'], call['j']: call['op_j']}
         for k in range(call['i'] + 1, call['j']):
             ops[k] = call['op_string']
-        H = H + complex(s) * mb.string(ops)
+        for o2 in translates(ops):
+            H = H + complex(s) * mb.string(o2)
     elif f == 'add_multi_coupling_term':
         ops = {}
         ijkl = call['ijkl']
@@ -520,17 +570,21 @@ def raw_call_matrix(mb, call, N):
             if n + 1 < len(ijkl):
                 for k in range(i + 1, ijkl[n + 1]):
                     ops[k] = call['op_string'][n]
-        H = H + complex(s) * mb.string(ops)
+        for o2 in translates(ops):
+            H = H + complex(s) * mb.string(o2)
     elif f == 'add_exp':
         lam = oc.strength_to_np(call['lambda'])
         lam = np.full(N, lam) if np.isscalar(lam) else np.asarray(lam)
         subs = list(range(N)) if call.get('subsites') is None else list(call['subsites'])
         start = subs if call.get('subsites_start') is None else list(call['subsites_start'])
+        if n_cells is not None:  # infinite: the sums over i and j run over all unit cells
+            subs = [x + c * N for c in range(n_cells) for x in subs]
+            start = [x + c * N for c in range(n_cells) for x in start]
         for i in start:
             for j in subs:
                 if j <= i:
                     continue
-                pref = lam[i] * np.prod([lam[n] for n in subs if i < n < j])
+                pref = lam[i % N] * np.prod([lam[n % N] for n in subs if i < n < j])
                 H = H + complex(s) * complex(pref) * mb.product([(call['op_i'], i), (call['op_j'], j)])
     elif f == 'add_centered':
         lam = oc.strength_to_np(call['lambda'])
@@ -558,7 +612,7 @@ def oracle_matrix(case, lat, n_cells=1):
     A, B = mb.zero(), mb.zero()
     for t in oracle_terms(case, lat, n_cells):
         if t[0] == 'raw':
-            m = raw_call_matrix(mb, t[1], N)
+            m = raw_call_matrix(mb, t[1], N, n_cells if lat.bc_MPS != 'finite' else None)
         else:
             c, term, _ = t
             m = c * mb.product(term)
